@@ -292,3 +292,22 @@ def own_scope_cases(rng, n=40):
                           "5:MS.1.u:%s_c.%s" % (o, vals(2)), "X"]                # never compiled by the flow: uid unknown -> 0
                 out.append("ALG %s 1 PROGS %s NF %s OR %s SCRIPT %s" % (hx("reno"), progs, nf, gets, " ".join(script)))
     return out
+
+
+def same_text_cases():
+    """several registered programs with byte-identical text under different names (neighbours in name order, and not): every NAME
+    is compiled, installed and selectable - two algorithms that happen to ship the same program each find theirs"""
+    out = []
+    cr = lambda sid, alg: "5:CR.%d.10.1460.1.2.3.4.%s" % (sid, hx(alg))
+    for na, nb, nc in (("pa", "pb", "pz"), ("pa", "pz", "pb"), ("p1", "p2", "p3"), ("prog_x", "prog_y", "a")):
+        for ta, tb, tc in ((P2, P2, P1), (P1, P2, P2), (P2, P1, P2), (P2, P2, P2)):
+            algs = ("ALG %s 1 PROGS %s=%s NF sp:%s:- OR gf:%s " % (hx("reno"), na, hx(ta), na, hx("Report.loss")) +
+                    "ALG %s 1 PROGS %s=%s NF sp:%s:- OR gf:%s " % (hx("cubic"), nb, hx(tb), nb, hx("Report.loss")) +
+                    "ALG %s 1 PROGS %s=%s NF sp:%s:- OR gf:%s" % (hx("bbr"), nc, hx(tc), nc, hx("Report.acked")))
+            script = ["5:RD.1", cr(1, "cubic"), cr(2, "bbr"), cr(3, "reno"), cr(4, ""), cr(5, "nosuch"), cr(6, "bbr"),
+                      "5:MS.1.u:%s.3" % nb, "5:MS.2.u:%s.4;5" % nc, "5:MS.3.u:%s.6" % na, "X"]
+            out.append(algs + " SCRIPT " + " ".join(script))
+        # the same within ONE algorithm's program list
+        out.append("ALG %s 1 PROGS %s=%s,%s=%s,%s=%s NF sp:%s:-,sp:%s:-,sp:%s:- OR - SCRIPT 5:RD.1 %s X"
+                   % (hx("reno"), na, hx(P2), nb, hx(P2), nc, hx(P1), na, nb, nc, cr(1, "reno")))
+    return out
